@@ -80,6 +80,15 @@ func (r *replica) updateLatestOffset(offset int64) (updated bool) {
 	return
 }
 
+// resetLatestOffset sets the replica's latest log offset unconditionally. It is
+// used when a leadership term starts: offsets recorded during an earlier term
+// say nothing about the replica's log now.
+func (r *replica) resetLatestOffset(offset int64) {
+	r.mu.Lock()
+	r.offset = offset
+	r.mu.Unlock()
+}
+
 // getLatestOffset returns the replica's latest log offset.
 func (r *replica) getLatestOffset() int64 {
 	r.mu.RLock()
@@ -870,7 +879,17 @@ func (p *partition) becomeLeader(epoch uint64) error {
 		// Also update the protobuf ISR list for persistence.
 		p.Isr = append(p.Isr, p.srv.config.Clustering.ServerID)
 	}
-	rep.updateLatestOffset(p.log.NewestOffset())
+	// Forget the offsets the replicas reported while this server led in an
+	// earlier term: followers may have truncated their logs since (and so may
+	// this server), so committing against those offsets could advance the HW
+	// past what the ISR has actually stored. Followers report their current
+	// offsets with their first replication request of this term.
+	for id, r := range p.isr {
+		if id != p.srv.config.Clustering.ServerID {
+			r.resetLatestOffset(-1)
+		}
+	}
+	rep.resetLatestOffset(p.log.NewestOffset())
 
 	// Start message processing loop.
 	recvChan := make(chan *nats.Msg, recvChannelSize)
